@@ -1,11 +1,12 @@
 #!/bin/bash
 # K5 / C33: ./run.sh quick|thorough|build|replay <file>
-#   1. regenerates the -overlay (bin/_k5ov/) from the CURRENT /repo/internal/replication/*.go
+#   1. regenerates the -overlay (bin/_k5ov/) from the CURRENT /repo/internal/replication/{,drivers/}*.go
 #   2. go test -c -overlay ... -vet=off -> /verif/h/bin/k5.test
 #   3. runs TestC33 (unless `build`). Exit: 0 held, 1 VIOLATION line printed, 2 engine error.
 # Knobs (debugging): VERIF_K5_BOUND, VERIF_K5_LOGS, VERIF_K5_APPENDS, VERIF_K5_HORIZON,
 # VERIF_K5_WORKERS, VERIF_K5_NOEXTRA, VERIF_BUDGET_S, VERIF_K5_TRACELOGS (replay),
-# K5_MUTATION=a..f (detection self-test).
+# VERIF_K5_PAGE, VERIF_K5_MAXITEMS, VERIF_K5_FLUSH (with VERIF_K5_LOGS: one batched scenario),
+# K5_MUTATION=a..h (detection self-test).
 set -u
 MODE="${1:-quick}"
 HERE="$(cd "$(dirname "$0")" && pwd)"
